@@ -1,73 +1,105 @@
 (* C17 - Joins return the SQL-defined rows under any memory budget.
-   Property theorems only.  Spec: Model/JoinSpec.v (join_g / join_rows: the nested-loop definition of
-   INNER / LEFT / RIGHT / FULL / CROSS joins over bags).  Implementation models: Model/JoinExec.v (the
-   Volcano join executors of src/sql/executor.rs), Model/JoinHw.v (the hand-written two-table path of
-   Database::query).  Proofs: Proof/JoinBag.v, JoinExec.v, JoinSpill.v.
-   Results are compared as bags: Permutation. *)
+   Property theorems only.  Spec: Model/JoinSpec.v (join_g / join_rows / query_spec: the nested-loop
+   definition of INNER / LEFT / RIGHT / FULL / CROSS joins over bags, ON under sem3 = TRUE).
+   Implementation models: Model/JoinExec.v (the Volcano join executors of src/sql/executor.rs and
+   PartitionSpiller through C33's Model/RowSerde.v), Model/JoinHw.v (the hand-written two-table join
+   path of Database::query and the finding classes).  Proofs: Proof/JoinBag.v, JoinExec.v, JoinSpill.v,
+   JoinKeys.v, JoinHw.v, JoinTop.v, JoinRefute.v.  Results are bags: Permutation / bag_eqb. *)
 From Coq Require Import ZArith List Bool Permutation.
-From TV Require Import Model.SqlSpec Model.JoinSpec Model.JoinExec Proof.JoinBag Proof.JoinExec Proof.JoinSpill.
+From TV Require Import Model.SqlSpec Model.PredImpl Model.JoinSpec Model.JoinExec Model.JoinHw Corr.C17
+  Proof.JoinBag Proof.JoinExec Proof.JoinSpill Proof.JoinKeys Proof.JoinHw Proof.JoinTop Proof.JoinRefute.
 Import ListNotations.
 Open Scope Z_scope.
 
 (* the nested-loop executor (one pass over the left input, matched flags, unmatched right rows last)
    returns the SQL join for every condition, join type and pair of inputs *)
 Theorem nested_loop_is_sql_join :
-  forall (A B C : Type) (both : A -> B -> C) (lonly : A -> C) (ronly : B -> C) (jt : jtype)
-         (on : A -> B -> bool) (L : list A) (R : list B),
-    Permutation (nl_exec both lonly ronly jt on L R) (join_g on both lonly ronly jt L R).
+  forall (A B C : Type) (both : A -> B -> C) (lonly : A -> C) (ronly : B -> C) (jt : jtype) (on : A -> B -> bool) (L : list A) (R : list B), Permutation (nl_exec both lonly ronly jt on L R) (join_g on both lonly ronly jt L R).
 Proof. exact nl_exec_spec_l. Qed.
 
-(* one hash partition (= the streaming hash join): build table on the left rows, probe with the
-   right rows, unmatched probe rows on the spot, unmatched build rows at the end: the SQL join under
-   the condition "same hash and keys_match" *)
+(* one hash partition: build table on the left rows, probe with the right rows, unmatched probe rows on
+   the spot, unmatched build rows at the end = the SQL join under "same hash and keys_match" *)
 Theorem hash_partition_is_sql_join :
-  forall (A B C : Type) (both : A -> B -> C) (lonly : A -> C) (ronly : B -> C) (jt : jtype)
-         (hl : A -> Z) (hr : B -> Z) (km : A -> B -> bool) (build : list A) (probe : list B),
-    Permutation (part_exec both lonly ronly jt hl hr km build probe)
-                (join_g (hit hl hr km) both lonly ronly jt build probe).
+  forall (A B C : Type) (both : A -> B -> C) (lonly : A -> C) (ronly : B -> C) (jt : jtype) (hl : A -> Z) (hr : B -> Z) (km : A -> B -> bool) (build : list A) (probe : list B), Permutation (part_exec both lonly ronly jt hl hr km build probe) (join_g (hit hl hr km) both lonly ronly jt build probe).
 Proof. exact part_exec_spec_l. Qed.
 
-(* grace hash join = nested-loop join, for EVERY hash function that respects the key comparison and
-   EVERY partition count (hence every memory budget that only changes the partitioning) *)
-Theorem grace_eq_nested :
-  forall (A B C : Type) (both : A -> B -> C) (lonly : A -> C) (ronly : B -> C) (jt : jtype)
-         (hl : A -> Z) (hr : B -> Z) (km : A -> B -> bool) (n : Z),
-    0 < n -> (forall l r, km l r = true -> hl l = hr r) ->
-    forall (L : list A) (R : list B),
-    exists out, grace_exec both lonly ronly jt hl hr km n Some Some L R = Some out /\
-                Permutation out (join_g km both lonly ronly jt L R).
+(* the streaming hash join (one table over the whole build side), for every hash that respects the match *)
+Theorem streaming_hash_is_sql_join :
+  forall (A B C : Type) (both : A -> B -> C) (lonly : A -> C) (ronly : B -> C) (jt : jtype) (hl : A -> Z) (hr : B -> Z) (km : A -> B -> bool), (forall l r, km l r = true -> hl l = hr r) -> forall (L : list A) (R : list B), Permutation (part_exec both lonly ronly jt hl hr km L R) (join_g km both lonly ronly jt L R).
+Proof. exact streaming_is_join_l. Qed.
+
+(* grace hash join = the SQL join, for EVERY hash function that respects the key comparison and EVERY
+   partition count *)
+Theorem grace_is_sql_join :
+  forall (A B C : Type) (both : A -> B -> C) (lonly : A -> C) (ronly : B -> C) (jt : jtype) (hl : A -> Z) (hr : B -> Z) (km : A -> B -> bool) (n : Z), 0 < n -> (forall l r, km l r = true -> hl l = hr r) -> forall (L : list A) (R : list B), exists out, grace_exec both lonly ronly jt hl hr km n Some Some L R = Some out /\ Permutation out (join_g km both lonly ronly jt L R).
 Proof. exact grace_exec_spec_l. Qed.
 
-(* spilling: what PartitionSpiller hands back is what was written, for every byte budget (C33) *)
+(* ... hence the same bag as the nested-loop join: the result does not depend on the algorithm *)
+Theorem grace_eq_nested :
+  forall (A B C : Type) (both : A -> B -> C) (lonly : A -> C) (ronly : B -> C) (jt : jtype) (hl : A -> Z) (hr : B -> Z) (km : A -> B -> bool) (n : Z), 0 < n -> (forall l r, km l r = true -> hl l = hr r) -> forall (L : list A) (R : list B), exists out, grace_exec both lonly ronly jt hl hr km n Some Some L R = Some out /\ Permutation out (nl_exec both lonly ronly jt km L R).
+Proof. exact grace_vs_nested_l. Qed.
+
+(* ... nor on the partition count or the hash function *)
+Theorem grace_partitions_irrelevant :
+  forall (A B C : Type) (both : A -> B -> C) (lonly : A -> C) (ronly : B -> C) (jt : jtype) (hl hl' : A -> Z) (hr hr' : B -> Z) (km : A -> B -> bool) (n n' : Z), 0 < n -> 0 < n' -> (forall l r, km l r = true -> hl l = hr r) -> (forall l r, km l r = true -> hl' l = hr' r) -> forall (L : list A) (R : list B), exists out out', grace_exec both lonly ronly jt hl hr km n Some Some L R = Some out /\ grace_exec both lonly ronly jt hl' hr' km n' Some Some L R = Some out' /\ Permutation out out'.
+Proof. exact partitions_irrelevant_l. Qed.
+
+(* spilling: what PartitionSpiller hands back is what was written, for every byte budget (uses C33:
+   Proof/RowSerde.v deser_ser_rows_l) *)
 Theorem spill_transparent :
   forall budget rows, forallb srow_ok rows = true -> spill_rows budget rows = Some rows.
 Proof. exact spill_rows_id_l. Qed.
 
-(* the grace hash join executor with a spill directory emits, under ANY memory budget, exactly
-   what it emits in memory *)
+(* the grace hash join executor with a spill directory emits, under ANY memory budget, exactly what it
+   emits in memory *)
 Theorem grace_budget_independent :
-  forall jt n lk rk lw rw budget sw (L R : list hrow),
-    forallb srow_ok L = true -> forallb srow_ok R = true ->
-    exec_model AGraceDyn jt n (Some budget) sw lk rk lw rw L R = exec_model AGraceDyn jt n None sw lk rk lw rw L R.
+  forall jt n lk rk lw rw budget sw (L R : list hrow), forallb srow_ok L = true -> forallb srow_ok R = true -> exec_model AGraceDyn jt n (Some budget) sw lk rk lw rw L R = exec_model AGraceDyn jt n None sw lk rk lw rw L R.
 Proof. exact grace_spill_transparent_l. Qed.
 
 (* ... which is the SQL join of the two inputs under keys_match_static, for every join type, partition
    count, budget and every hash oracle that gives matching rows the same hash *)
 Theorem grace_dyn_is_sql_join :
-  forall jt n lk rk lw rw spill sw (L R : list hrow),
-    0 < n ->
-    (forall l r : hrow, keys_match_static (fst l) (fst r) lk rk = true -> snd l = snd r) ->
-    (spill = None \/ (forallb srow_ok L = true /\ forallb srow_ok R = true)) ->
-    exists t, exec_model AGraceDyn jt n spill sw lk rk lw rw L R = XRows t /\
-              Permutation t (join_rows jt lw rw (fun l r => keys_match_static l r lk rk) (map fst L) (map fst R)).
+  forall jt n lk rk lw rw spill sw (L R : list hrow), 0 < n -> (forall l r : hrow, keys_match_static (fst l) (fst r) lk rk = true -> snd l = snd r) -> (spill = None \/ (forallb srow_ok L = true /\ forallb srow_ok R = true)) -> exists t, exec_model AGraceDyn jt n spill sw lk rk lw rw L R = XRows t /\ Permutation t (join_rows jt lw rw (fun l r => keys_match_static l r lk rk) (map fst L) (map fst R)).
 Proof. exact grace_dyn_is_join_l. Qed.
 
+(* keys_match_static is SQL equality of the key columns wherever the reference semantics defines it
+   (NULL never matches; Int / Float by value) *)
+Theorem keys_match_is_sql_eq :
+  forall lw lk rk (l r : row), length l = lw -> length lk = length rk -> Forall (fun i => (i < lw)%nat) lk -> forallb no_bool l = true -> forallb no_bool r = true -> on3 (keys_expr lw lk rk) l r <> None -> keys_match_static l r lk rk = on_tt (keys_expr lw lk rk) l r.
+Proof. exact keys_match_is_sql_eq_l. Qed.
+
+(* the hand-written two-table path of Database::query returns exactly the rows SQL defines, for all
+   tables, join types, ON / WHERE conditions and select lists outside the finding classes 3, 4, 8
+   (cls_sql = 0), given that predicate evaluation agrees with the reference on the joined rows (C14) *)
+Theorem hw_join_correct :
+  forall jt lw rw on w sel (L R : table) t s, let q := mkq [(lw, L); (rw, R)] [(jt, on)] w (Some sel) in cls_sql q false = 0 -> Forall (fun l => length l = lw) L -> (forall e, opt_on jt on = Some e -> pred_ok e (pairs_of L R)) -> (forall e, w = Some e -> pred_ok e (pairs_of L R)) -> hw_model q false = HRows t -> query_spec q = Some s -> t = s.
+Proof. exact hw2_correct_l. Qed.
+
+(* the finding classes are real: on these four cases the faithful models return what the implementation
+   returned, and it is not the SQL join *)
+Theorem known_classes_refuted :
+  refuted w1 1 = true /\ refuted w3 3 = true /\ refuted w4 4 = true /\ refuted w8 8 = true.
+Proof. exact known_classes_refuted_l. Qed.
+
+(* ... the rows SQL defines for them *)
+Theorem known_classes_expected :
+  (match w1 with Exec _ jt _ _ _ lk rk lw rw L R _ => bag_eqb (join_rows jt lw rw (on_tt (keys_expr lw lk rk)) (map fst L) (map fst R)) [[VInt 1; VInt 10; VFloat 4607182418800017408; VInt 100]; [VInt 2; VInt 20; VInt 2; VInt 200]] | _ => false end) = true /\ (match w3 with Sql q _ _ _ => query_spec q | _ => None end) = Some [[VInt 1; VInt 1]; [VInt 2; VInt 1]] /\ (match w4 with Sql q _ _ _ => query_spec q | _ => None end) = Some [[VInt 1; VInt 1]; [VInt 1; VInt 2]] /\ (match w8 with Sql q _ _ _ => query_spec q | _ => None end) = Some [[VInt 1; VInt 1]; [VInt 2; VInt 2]].
+Proof. exact refuted_expected_l. Qed.
+
+(* the hash hypothesis of grace_is_sql_join is what fails in class 1: the keys Int 1 and Float 1.0 match,
+   their DefaultHasher values differ *)
+Theorem hash_respects_fails_on_witness :
+  keys_match_static [VInt 1; VInt 10] [VFloat 4607182418800017408; VInt 100] [0%nat] [0%nat] = true /\ 2206609067086327257 <> 13833534234735907638.
+Proof. exact hash_respects_fails_on_w1_l. Qed.
+
 (* bag_eqb, the comparison used by the correspondence, is multiset equality *)
-Theorem bag_eqb_is_permutation : forall a b, bag_eqb a b = true <-> Permutation a b.
+Theorem bag_eqb_is_permutation :
+  forall a b, bag_eqb a b = true <-> Permutation a b.
 Proof. exact bag_eqb_iff. Qed.
 
 (* non-vacuity: duplicate and NULL keys, a FULL join over 3 partitions with a 64-byte budget; the
-   hypotheses of grace_dyn_is_sql_join hold and the result has matched, left-only and right-only rows *)
+   hypotheses of grace_dyn_is_sql_join hold and the result has matched, left-only and right-only
+   rows; a two-table query outside every class on which hw_join_correct speaks *)
 Example c17_witness :
   let L : list hrow := [([VInt 1; VInt 1], 11); ([VInt 2; VInt 1], 11); ([VInt 3; VNull], 0); ([VInt 4; VInt 5], 55)] in
   let R : list hrow := [([VInt 1; VInt 10], 11); ([VNull; VInt 20], 0); ([VInt 7; VInt 30], 77); ([VInt 1; VInt 40], 11)] in
@@ -76,21 +108,40 @@ Example c17_witness :
   match exec_model AGraceDyn JFull 3 (Some 64) false [1%nat] [0%nat] 2 2 L R with
   | XRows t => bag_eqb t (join_rows JFull 2 2 (fun l r => keys_match_static l r [1%nat] [0%nat]) (map fst L) (map fst R)) && (length t =? 8)%nat
   | _ => false
-  end = true.
+  end = true /\
+  let q := mkq [(3%nat, ta3); (3%nat, tb3)] [(JFull, Some (ECmp CEq (ECol 1) (ECol 4)))] None (Some [0%nat; 3%nat]) in
+  cls_sql q false = 0 /\ hw_model q false = HRows [[VInt 1; VInt 1]; [VInt 1; VInt 2]; [VInt 2; VInt 1]; [VInt 2; VInt 2]; [VInt 3; VNull]] /\
+  query_spec q = Some [[VInt 1; VInt 1]; [VInt 1; VInt 2]; [VInt 2; VInt 1]; [VInt 2; VInt 2]; [VInt 3; VNull]].
 Proof. vm_compute. repeat split. Qed.
 
 Check nested_loop_is_sql_join : forall (A B C : Type) (both : A -> B -> C) (lonly : A -> C) (ronly : B -> C) (jt : jtype) (on : A -> B -> bool) (L : list A) (R : list B), Permutation (nl_exec both lonly ronly jt on L R) (join_g on both lonly ronly jt L R).
 Check hash_partition_is_sql_join : forall (A B C : Type) (both : A -> B -> C) (lonly : A -> C) (ronly : B -> C) (jt : jtype) (hl : A -> Z) (hr : B -> Z) (km : A -> B -> bool) (build : list A) (probe : list B), Permutation (part_exec both lonly ronly jt hl hr km build probe) (join_g (hit hl hr km) both lonly ronly jt build probe).
-Check grace_eq_nested : forall (A B C : Type) (both : A -> B -> C) (lonly : A -> C) (ronly : B -> C) (jt : jtype) (hl : A -> Z) (hr : B -> Z) (km : A -> B -> bool) (n : Z), 0 < n -> (forall l r, km l r = true -> hl l = hr r) -> forall (L : list A) (R : list B), exists out, grace_exec both lonly ronly jt hl hr km n Some Some L R = Some out /\ Permutation out (join_g km both lonly ronly jt L R).
+Check streaming_hash_is_sql_join : forall (A B C : Type) (both : A -> B -> C) (lonly : A -> C) (ronly : B -> C) (jt : jtype) (hl : A -> Z) (hr : B -> Z) (km : A -> B -> bool), (forall l r, km l r = true -> hl l = hr r) -> forall (L : list A) (R : list B), Permutation (part_exec both lonly ronly jt hl hr km L R) (join_g km both lonly ronly jt L R).
+Check grace_is_sql_join : forall (A B C : Type) (both : A -> B -> C) (lonly : A -> C) (ronly : B -> C) (jt : jtype) (hl : A -> Z) (hr : B -> Z) (km : A -> B -> bool) (n : Z), 0 < n -> (forall l r, km l r = true -> hl l = hr r) -> forall (L : list A) (R : list B), exists out, grace_exec both lonly ronly jt hl hr km n Some Some L R = Some out /\ Permutation out (join_g km both lonly ronly jt L R).
+Check grace_eq_nested : forall (A B C : Type) (both : A -> B -> C) (lonly : A -> C) (ronly : B -> C) (jt : jtype) (hl : A -> Z) (hr : B -> Z) (km : A -> B -> bool) (n : Z), 0 < n -> (forall l r, km l r = true -> hl l = hr r) -> forall (L : list A) (R : list B), exists out, grace_exec both lonly ronly jt hl hr km n Some Some L R = Some out /\ Permutation out (nl_exec both lonly ronly jt km L R).
+Check grace_partitions_irrelevant : forall (A B C : Type) (both : A -> B -> C) (lonly : A -> C) (ronly : B -> C) (jt : jtype) (hl hl' : A -> Z) (hr hr' : B -> Z) (km : A -> B -> bool) (n n' : Z), 0 < n -> 0 < n' -> (forall l r, km l r = true -> hl l = hr r) -> (forall l r, km l r = true -> hl' l = hr' r) -> forall (L : list A) (R : list B), exists out out', grace_exec both lonly ronly jt hl hr km n Some Some L R = Some out /\ grace_exec both lonly ronly jt hl' hr' km n' Some Some L R = Some out' /\ Permutation out out'.
 Check spill_transparent : forall budget rows, forallb srow_ok rows = true -> spill_rows budget rows = Some rows.
 Check grace_budget_independent : forall jt n lk rk lw rw budget sw (L R : list hrow), forallb srow_ok L = true -> forallb srow_ok R = true -> exec_model AGraceDyn jt n (Some budget) sw lk rk lw rw L R = exec_model AGraceDyn jt n None sw lk rk lw rw L R.
 Check grace_dyn_is_sql_join : forall jt n lk rk lw rw spill sw (L R : list hrow), 0 < n -> (forall l r : hrow, keys_match_static (fst l) (fst r) lk rk = true -> snd l = snd r) -> (spill = None \/ (forallb srow_ok L = true /\ forallb srow_ok R = true)) -> exists t, exec_model AGraceDyn jt n spill sw lk rk lw rw L R = XRows t /\ Permutation t (join_rows jt lw rw (fun l r => keys_match_static l r lk rk) (map fst L) (map fst R)).
+Check keys_match_is_sql_eq : forall lw lk rk (l r : row), length l = lw -> length lk = length rk -> Forall (fun i => (i < lw)%nat) lk -> forallb no_bool l = true -> forallb no_bool r = true -> on3 (keys_expr lw lk rk) l r <> None -> keys_match_static l r lk rk = on_tt (keys_expr lw lk rk) l r.
+Check hw_join_correct : forall jt lw rw on w sel (L R : table) t s, let q := mkq [(lw, L); (rw, R)] [(jt, on)] w (Some sel) in cls_sql q false = 0 -> Forall (fun l => length l = lw) L -> (forall e, opt_on jt on = Some e -> pred_ok e (pairs_of L R)) -> (forall e, w = Some e -> pred_ok e (pairs_of L R)) -> hw_model q false = HRows t -> query_spec q = Some s -> t = s.
+Check known_classes_refuted : refuted w1 1 = true /\ refuted w3 3 = true /\ refuted w4 4 = true /\ refuted w8 8 = true.
+Check known_classes_expected : (match w1 with Exec _ jt _ _ _ lk rk lw rw L R _ => bag_eqb (join_rows jt lw rw (on_tt (keys_expr lw lk rk)) (map fst L) (map fst R)) [[VInt 1; VInt 10; VFloat 4607182418800017408; VInt 100]; [VInt 2; VInt 20; VInt 2; VInt 200]] | _ => false end) = true /\ (match w3 with Sql q _ _ _ => query_spec q | _ => None end) = Some [[VInt 1; VInt 1]; [VInt 2; VInt 1]] /\ (match w4 with Sql q _ _ _ => query_spec q | _ => None end) = Some [[VInt 1; VInt 1]; [VInt 1; VInt 2]] /\ (match w8 with Sql q _ _ _ => query_spec q | _ => None end) = Some [[VInt 1; VInt 1]; [VInt 2; VInt 2]].
+Check hash_respects_fails_on_witness : keys_match_static [VInt 1; VInt 10] [VFloat 4607182418800017408; VInt 100] [0%nat] [0%nat] = true /\ 2206609067086327257 <> 13833534234735907638.
 Check bag_eqb_is_permutation : forall a b, bag_eqb a b = true <-> Permutation a b.
 
 Print Assumptions nested_loop_is_sql_join.
 Print Assumptions hash_partition_is_sql_join.
+Print Assumptions streaming_hash_is_sql_join.
+Print Assumptions grace_is_sql_join.
 Print Assumptions grace_eq_nested.
+Print Assumptions grace_partitions_irrelevant.
 Print Assumptions spill_transparent.
 Print Assumptions grace_budget_independent.
 Print Assumptions grace_dyn_is_sql_join.
+Print Assumptions keys_match_is_sql_eq.
+Print Assumptions hw_join_correct.
+Print Assumptions known_classes_refuted.
+Print Assumptions known_classes_expected.
+Print Assumptions hash_respects_fails_on_witness.
 Print Assumptions bag_eqb_is_permutation.
